@@ -477,3 +477,48 @@ Proof. intros Hi Hj sc cost. unfold ranking_payoffs. rewrite !tab2_nth by assump
 Lemma unit_vector_spec n ones i j : (i < n)%nat -> (j < n)%nat ->
   nth j (nth i (unit_vector_payoff0 n ones) []) 0 = if (Z.of_nat i =? nth j ones (-1)%Z)%Z then 1 else 0.
 Proof. intros Hi Hj. unfold unit_vector_payoff0. apply tab2_nth; assumption. Qed.
+
+(* ------------------------------------------------------------------ tournament game payoff kernel (partial) *)
+Lemma zrange_from_nth s n i : (i < n)%nat -> nth i (zrange_from s n) 0%Z = (s + Z.of_nat i)%Z.
+Proof.
+  revert s i. induction n as [|n IH]; intros s [|i] H; simpl; try lia.
+  rewrite IH by lia. lia.
+Qed.
+Lemma zrange_from_length s n : length (zrange_from s n) = n.
+Proof. revert s. induction n; intros s; simpl; auto. Qed.
+
+Lemma indicator_nth m hits c : (0 <= c < m)%Z ->
+  nth (Z.to_nat c) (indicator m hits) 0 = if existsb (Z.eqb c) hits then 1 else 0.
+Proof.
+  intros Hc. unfold indicator, zrange.
+  set (f := fun c0 : Z => if existsb (Z.eqb c0) hits then 1 else 0).
+  rewrite (nth_indep _ 0 (f 0%Z)) by (rewrite map_length, zrange_from_length; lia).
+  rewrite (map_nth f). rewrite zrange_from_nth by lia. unfold f.
+  replace (0 + Z.of_nat (Z.to_nat c))%Z with c by lia. reflexivity.
+Qed.
+
+(* entry c of node i's row is 1 exactly when c is the k_array_rank_jit of the image, under the sorted
+   out-neighbour list nb, of one of the position sets visited by the next_k_array walk over [0, d) *)
+Lemma tg_payoff0_row_spec k m nb c : (0 <= c < m)%Z ->
+  let d := Z.of_nat (length nb) in
+  let ranks := map (fun a => k_array_rank_jit (map (fun t => zget nb t) a))
+                   (k_walk (S (Z.to_nat (binomZ d k))) d (zrange k)) in
+  nth (Z.to_nat c) (tg_payoff0_row k m nb) 0 =
+    if (d <? k)%Z then 0 else if existsb (Z.eqb c) ranks then 1 else 0.
+Proof.
+  intros Hc d ranks. unfold tg_payoff0_row. fold d. destruct (d <? k)%Z.
+  - rewrite indicator_nth by exact Hc. reflexivity.
+  - rewrite indicator_nth by exact Hc. reflexivity.
+Qed.
+
+(* row j of the column player's matrix is the indicator of the j-th array of the next_k_array walk from [0..k-1] *)
+Lemma tg_payoff1_spec n k m j v : (j < Z.to_nat m)%nat -> (0 <= v < n)%Z ->
+  nth (Z.to_nat v) (nth j (tg_payoff1 n k m) []) 0 =
+    if existsb (Z.eqb v) (nth j (iter_next (Z.to_nat m) (zrange k)) []) then 1 else 0.
+Proof.
+  intros Hj Hv. unfold tg_payoff1.
+  rewrite (nth_indep _ [] (indicator n [])).
+  2:{ rewrite map_length. clear -Hj. revert Hj. generalize (zrange k) (Z.to_nat m). intros X f. revert X j.
+      induction f; intros X [|j] H; simpl in *; try lia. specialize (IHf (next_k_array X) j ltac:(lia)). lia. }
+  rewrite (map_nth (indicator n)). apply indicator_nth. exact Hv.
+Qed.
